@@ -1,9 +1,13 @@
 //! mlsv — property-based verification harness for awslabs/mls-rs (see /verif/DESIGN.md).
+mod alloc_track;
 mod engine;
 mod props;
 mod refmodel;
 
 use engine::Tier;
+
+#[global_allocator]
+static GLOBAL: alloc_track::CountingAlloc = alloc_track::CountingAlloc;
 
 pub struct Ctx {
     pub tier: Tier,
